@@ -13,6 +13,13 @@ SPEC = dict(modules=["MemVerif.Props.C10"], gen_cfgs=("rwdi",),
 
 def run(ctx):
     cfgs = ["rwdi"] + (["dbg"] if ctx.thorough else [])
+    # the origin theorem is stated for the library's trait values (all propagation traits true): the harness prints what the
+    # compiled code says; anything else invalidates the hypothesis of `C10_origin_invariant`
+    exe0 = ctx.harness("subj_container", "rwdi", flags=["-fno-access-control"])
+    hdr = common.run_harness(exe0, ["0", ctx.seed], timeout=600)[1].splitlines()[:1]
+    if hdr and not all(t in hdr[0] for t in ("pocca=1", "pocma=1", "pocs=1")):
+        ctx.notes.append("propagation traits differ from the values the origin theorem assumes: " + hdr[0])
+        ctx.coverage["traits_mismatch"] = hdr[0]
     common.run_sweep(ctx, "C10", "subj_container", cfgs, ["1" if ctx.thorough else "0", ctx.seed], ["ns ", "ct ", "cteq "], subject="container")
     if ctx.thorough:
         # every element size 1..128 x every alignment dividing it (248 types) x 11 containers
